@@ -887,35 +887,41 @@ C2S_TZS = [None, None, None, 'UTC', 'Europe/London', 'America/New_York', 'Asia/K
 C2S_CHANGES = sorted((zone, day, key[2]) for key, zs in ZONES.items() for zone, day in zs)     # (zone, clock-change day, minutes)
 
 
-def with_dups(rng, rows):
+def with_dups(rng, rows, p=0.25):
     """some timestamps printed twice or three times (the index stays sorted)"""
     out = []
     for r in rows:
-        out += [r] * (rng.choice([2, 2, 3]) if rng.random() < 0.25 else 1)
+        out += [r] * (rng.choice([2, 2, 3]) if rng.random() < p else 1)
     return out
 
 
-def rand_zoned(rng):
+def codes(rows, ncols):
+    """position codes: every cell different, so that the order of rows with equal timestamps shows"""
+    return [[100000 * j + q for q in range(len(rows))] for j in range(ncols)]
+
+
+def rand_zoned(rng, dense=0):
     """an intraday series in a zone with daylight saving around a clock-change day; bounds are times of day, most of
     them on or within the size of the change of the wall-clock time of some row"""
     zone, day, shift = rng.choice(C2S_CHANGES)
     B = 2000
     day0 = (datetime.date.fromisoformat(day) - datetime.timedelta(days=rng.choice([0, 0, 1, 2]))).isoformat()
     clock = Clock('ltod', B, 1, zone, day0)
-    days = rng.sample(range(1, 5), rng.choice([1, 2, 3]))
-    step = rng.choice([1, 5, 15, 30, 60])
+    days = rng.sample(range(1, 5), rng.choice([1, 2, 3]) if not dense else 2 + dense)
+    step = rng.choice([1, 5, 15, 30, 60]) if not dense else rng.choice([5, 15])
     near = [m for m in range(0, 300, step)]                    # the small hours, where the clocks change
-    mins = sorted(set(rng.sample(near, min(len(near), rng.choice([1, 2, 4, 6]))) + rng.sample(range(0, 1380, step), rng.choice([0, 1, 3]))))
+    mins = sorted(set(rng.sample(near, min(len(near), rng.choice([1, 2, 4, 6]) if not dense else 5 * dense + 2))
+                      + rng.sample(range(0, 1380, step), rng.choice([0, 1, 3]) if not dense else 9 * dense - 5)))
     rows = sorted({clock.grid(clock.stamp(d * B + m + 1)) for d in days for m in mins if rng.random() < 0.85})
     rows = [r for r in rows if r > 0]
-    if rng.random() < 0.2:
-        rows = with_dups(rng, rows)
+    if dense or rng.random() < 0.2:
+        rows = with_dups(rng, rows, 0.6 if dense else 0.25)
     tods = sorted({clock.todslot(clock.stamp(r)) for r in rows})
 
     def bnd():
         r = rng.random()
-        if r < 0.12 or not tods:
-            return 0 if r < 0.12 else rng.randrange(1, 1441)
+        if r < (0.2 * dense if dense else 0.12) or not tods:
+            return 0 if tods or r < 0.12 else rng.randrange(1, 1441)
         k = rng.choice(tods)
         if r < 0.5:
             return k
@@ -923,19 +929,26 @@ def rand_zoned(rng):
             return max(1, min(1440, k + rng.choice([-1, 1]) * rng.choice([shift, shift, shift // 2, 1, shift + 1])))
         return rng.randrange(1, 1441)
     ncols = rng.choice([1, 2])
-    s = {'rows': rows, 'cols': [[rng.randrange(0, 1000000) for _ in rows] for _ in range(ncols)]}
-    return {'op': 'slice', 'mode': 'ltod', 'B': B, 'unit': 1, 's': s, 'lb': bnd(), 'ub': bnd(), 'oc': rng.choice(OCS), 'spelling': rng.randrange(0, 12),
+    s = {'rows': rows, 'cols': [[rng.randrange(0, 1000000) for _ in rows] for _ in range(ncols)] if not dense else codes(rows, ncols)}
+    lb, ub = bnd(), bnd()
+    if dense and tods and rng.random() < 0.5:          # a window that wraps past midnight, both ends near wall-clock readings of the index
+        lb, ub = (lambda a, b: (max(a, b), min(a, b)))(*[max(1, min(1440, rng.choice(tods) + rng.choice([0, 0, 1, -1, shift]))) for _ in range(2)])
+    elif dense and lb and ub and rng.random() < 0.6:     # ... or a wide one that does not
+        lb, ub = rng.choice([(min(lb, ub), max(lb, ub)), (0, max(lb, ub)), (min(lb, ub), 0)])
+    return {'op': 'slice', 'mode': 'ltod', 'B': B, 'unit': 1, 's': s, 'lb': lb, 'ub': ub, 'oc': rng.choice(OCS), 'spelling': rng.randrange(0, 12),
             'tz': zone, 'day0': day0}
 
 
-def rand_slice(rng):
-    if rng.random() < 0.25:
-        return rand_zoned(rng)
+def rand_slice(rng, dense=0, mode=None):
+    """dense = 1 / 2: the directed family of indexes that REPEAT timestamps and are long enough for results of more than 16 / more
+    than 64 rows (where library sorts stop being stable), cells = position codes; mode = 'date' / 'tod' / 'ltod' picks the window kind"""
+    if mode == 'ltod' or (mode is None and rng.random() < 0.25):
+        return rand_zoned(rng, dense)
     ncols = rng.choice([1, 2, 2, 3])
-    if rng.random() < 0.5:
+    if mode == 'date' or (mode is None and rng.random() < 0.5):
         # daily-ish series on a minute grid: timestamps are minutes since BASE
         step = rng.choice([1440, 1440, 60, 5, 1])
-        n = rng.choice([0, 1, 2, 5, 20, 60])
+        n = rng.choice([0, 1, 2, 5, 20, 60]) if not dense else rng.choice([25, 40]) if dense == 1 else rng.choice([80, 110])
         pts = sorted(rng.sample(range(1, 121), min(n, 120)))
         rows = [p * step for p in pts]
         keys = rows
@@ -945,31 +958,37 @@ def rand_slice(rng):
     else:
         # intraday series: several days, minutes of the day; bounds are times of day
         mode, B = 'tod', 2000
-        days = rng.sample(range(1, 9), rng.choice([1, 2, 3, 5]))
-        mins = sorted(rng.sample(range(0, 1440, rng.choice([1, 5, 60, 240])), rng.choice([1, 2, 4, 6])))
+        days = rng.sample(range(1, 9), rng.choice([1, 2, 3, 5]) if not dense else 3 + 2 * dense)
+        mins = sorted(rng.sample(range(0, 1440, rng.choice([1, 5, 60, 240]) if not dense else rng.choice([5, 60])), rng.choice([1, 2, 4, 6]) if not dense else 3 + 5 * dense))
         rows = sorted(d * B + m + 1 for d in days for m in mins if rng.random() < 0.8)
         keys = sorted({r % B for r in rows})
         lo, hi = 1, 1440
         bnd = lambda: rand_bound(rng, keys, lo, hi)
     lb, ub = bnd(), bnd()
-    if rng.random() < 0.2:
-        rows = with_dups(rng, rows)
+    if dense and mode == 'date' and lb and ub and rng.random() < 0.7:
+        lb, ub = min(lb, ub), max(lb, ub)
+    if dense and mode == 'tod':
+        lb, ub = (lambda a, b: (max(a, b), min(a, b)))(rng.choice(keys), rng.choice(keys))      # a window that wraps past midnight
+        if rng.random() < 0.5:                                                                     # ... or a wide one that does not
+            lb, ub = rng.choice([(ub, lb), (0, lb), (ub, 0)])
+    if dense or rng.random() < 0.2:
+        rows = with_dups(rng, rows, 0.6 if dense else 0.25)
     tz = rng.choice(C2S_TZS)
-    s = {'rows': rows, 'cols': [[rng.randrange(0, 1000000) for _ in rows] for _ in range(ncols)]}
+    s = {'rows': rows, 'cols': [[rng.randrange(0, 1000000) for _ in rows] for _ in range(ncols)] if not dense else codes(rows, ncols)}
     return {'op': 'slice', 'mode': mode, 'B': B, 'unit': 1, 's': s, 'lb': lb, 'ub': ub, 'oc': rng.choice(OCS), 'spelling': rng.randrange(0, 12),
             'tz': tz, 'btz': rng.choice(BTZS) if tz else None, 'brep': rng.choice(BREPS), 'iunit': rng.choice(IUNITS)}
 
 
-def rand_stitch(rng):
-    k = rng.choice([1, 2, 3, 4, 6])
+def rand_stitch(rng, dense=0):
+    k = rng.choice([1, 2, 3, 4, 6]) if not dense else rng.choice([2, 3, 4])
     step = rng.choice([1440, 60])
-    dup = rng.random() < 0.15
+    dup = rng.random() < 0.15 or dense > 0
     ss = []
     for i in range(k):
-        n = rng.choice([0, 1, 5, 20, 40])
+        n = rng.choice([0, 1, 5, 20, 40]) if not dense else rng.choice([20, 30]) if dense == 1 else rng.choice([50, 58])
         pts = sorted(rng.sample(range(1, 61), min(n, 60)))
         if dup:
-            pts = with_dups(rng, pts)
+            pts = with_dups(rng, pts, 0.6 if dense else 0.25)
         ss.append({'rows': [p * step for p in pts], 'cols': [[1000 * (i + 1) + p if not dup else 1000 * (i + 1) + q for q, p in enumerate(pts)]]})
     ubs = sorted(rng.sample(range(1, 66), k))
     ubs = [u * step + rng.choice([0, 0, 1, -1, step // 2]) for u in ubs]
@@ -991,9 +1010,25 @@ def rand_stitch(rng):
             'iunit': rng.choice(IUNITS)}
 
 
-def c2s(ctx, n_slice, n_stitch):
+def c2s(ctx, n_slice, n_stitch, n_dense):
     cases = [rand_slice(ctx.rng) for _ in range(n_slice)] + [rand_stitch(ctx.rng) for _ in range(n_stitch)]
+    # directed: repeated timestamps in results of more than 16 / more than 64 rows, every window kind, and one-column stitching
+    cases += [rand_slice(ctx.rng, dense, mode) for dense in (1, 2) for mode in ('date', 'tod', 'ltod') for _ in range(n_dense)]
+    cases += [rand_stitch(ctx.rng, dense) for dense in (1, 2) for _ in range(n_dense)]
     obs = pmap(c2s_chunk, cases, chunk=100)
+    big = {}
+    for o in obs:
+        out = o['runs'][0]['out'] if o['op'] == 'slice' else o['calls'][0]['out'] if o['op'] == 'session' else None
+        if out and out['kind'] == 'val' and has_dup(out['rows']):
+            kind = slice_kind(o) if o['op'] == 'slice' else 'stitch'
+            for m in (16, 64):
+                if len(out['rows']) > m:
+                    big[(kind, m)] = big.get((kind, m), 0) + 1
+    for kind in ('date', 'tod', 'tod_wrap', 'ltod', 'ltod_wrap', 'stitch'):
+        for m in (16, 64):
+            if not big.get((kind, m)):
+                raise Machinery('vacuous: no %s result of more than %d rows that repeats timestamps' % (kind, m))
+    ctx.sample({'results_repeating_timestamps': {'%s>%d' % k: v for k, v in sorted(big.items())}})
     ctx.evals += sum(len(o['runs']) if o['op'] == 'slice' else len(o['calls']) if o['op'] == 'session' else 1 for o in obs)
     judge(ctx, obs)
     for o in obs:
@@ -1035,6 +1070,18 @@ def replay(ctx, body):
         obs = [observe_slice({'mode': mode, 'B': B, 'unit': unit, 's': c['s'], 'lb': c['lb'], 'ub': c['ub'], 'oc': list(c['oc']),
                               'spelling': c.get('spelling', 0), 'tz': c.get('tz'), 'btz': c.get('btz'), 'day0': c.get('day0'),
                               'brep': c.get('brep'), 'iunit': c.get('iunit')})]
+    elif c['kind'] == 'session':
+        # a session on a world of caller-owned objects: the recorded steps again, every step judged by Trace_Slice
+        steps = [{'a': act(a['op'], **{k: v for k, v in a.items() if k != 'op'})} for a in c['acts']]
+        obs = observe_sess({'form': c['form'], 'w0': c['w0'], 'steps': steps, 'unit': c['unit'], 'tz': c.get('tz'), 'btz': c.get('btz'),
+                            'brep': c.get('brep'), 'iunit': c.get('iunit'), 'name': 'close' if c.get('named') else None,
+                            'spelling': c.get('spelling', 0), 'sid': 'replay'})
+        bad = ctx.validate('Trace_Slice', obs)
+        for o in obs:
+            print(json.dumps({'k': o['k'], 'a': small_act(o['a']), 'x': o['x']})[:1500])
+        print('REPLAY property=C13 %s' % ('rejected at step %d: %s' % (bad[0][0], bad[0][1]) if bad else 'accepted by the specification'))
+        shutil.rmtree(ctx.tmp, ignore_errors=True)
+        return 1 if bad else 0
     elif c['kind'] == 'stitch':
         obs = observe_session({'ss': c['ss'], 'ubs': c['ubs'], 'ns': c.get('ns') or [c['n']], 'unit': c['unit'], 'name': 'close' if c.get('named') else None,
                                'tz': c.get('tz'), 'btz': c.get('btz'), 'unslice': not c.get('dup'), 'brep': c.get('brep'), 'iunit': c.get('iunit')})[:1]
@@ -1092,19 +1139,19 @@ def run(ctx):
         # sessions (the generator configuration carries the clauses of the session machine as invariants)
         un = s2c_sessions(ctx, ctx.generate('MC_SliceSess', 'MC_SliceSess_gen_quick.cfg'), 'pairs', FORMS)
         un += s2c_sessions(ctx, ctx.generate('MC_SliceSess', 'MC_SliceSess_sim.cfg', simulate=30, depth=16, seed=ctx.seed + 1, workers=1), 'sim', ['free'])
-        c2s(ctx, 1500, 300)
+        c2s(ctx, 1500, 300, 30)
         c2s_sessions(ctx, 120, un)
     else:
         ctx.mc('MC_Slice', 'MC_Slice_thorough.cfg')
         s2c(ctx, ctx.generate('MC_Slice', 'MC_Slice_gen_big.cfg'), 'big')
-        ctx.mc('MC_SliceSess', 'MC_SliceSess_thorough.cfg')
+        ctx.mc('MC_SliceSess', 'MC_SliceSess_thorough.cfg', coverage=False)     # (the driver checks that every form and every kind of step occurs)
         # why histories with edits are enumerated: a df_unslice that remembers the last frame object, and a stitch that stores
         # its trimmed series back into the list it was given, break the clauses of the session machine
         ctx.mc('MC_SliceSess', 'MC_SliceSess_memo.cfg', must_fail='UnsliceNoMemory', coverage=False)
         ctx.mc('MC_SliceSess', 'MC_SliceSess_trim.cfg', must_fail='CallsOwnNothing', coverage=False)
         un = s2c_sessions(ctx, ctx.generate('MC_SliceSess', 'MC_SliceSess_gen_thorough.cfg'), 'pairs', FORMS)
         un += s2c_sessions(ctx, ctx.generate('MC_SliceSess', 'MC_SliceSess_sim_thorough.cfg', simulate=1000, depth=20, seed=ctx.seed + 1, workers=1), 'sim', ['free'])
-        c2s(ctx, 20000, 4000)
+        c2s(ctx, 20000, 4000, 300)
         c2s_sessions(ctx, 2500, un)
     report(ctx)
     ctx.exhaustive = False
@@ -1115,6 +1162,10 @@ def run(ctx):
         '(pandas cannot outer-join them) and df_unslice of such results stay outside; unsorted indexes stay outside (an interval of a '
         'shuffled index is still defined, but the stitching sentence speaks of series in time order)',
         'values are non-negative integer-valued floats (data independence)',
+        'repeated timestamps in LONG results (library sorts are stable only for short inputs): a directed C2S family renders indexes that '
+        'repeat 60% of their timestamps, with position codes as values, long enough for results of more than 16 and more than 64 rows, '
+        'for date windows, time-of-day windows with and without wrap-around, naive and zoned, and one-column stitching; the run fails as '
+        'vacuous unless each of these kinds returns such a result at both sizes',
         'an index in a time zone: the row\'s time of day is the wall-clock time the index itself shows (read with .hour/.minute off '
         'the rendered timestamps, and required to equal the zone model\'s LocalTod in S2C); date bounds for a zoned index are '
         'zone-aware datetimes (a naive bound against a zoned index is refused by pandas and is outside the domain)',
